@@ -47,7 +47,7 @@ func isCallableClass(id string) bool {
 			return true
 		}
 	}
-	return false
+	return id == classCallbackPanicNil
 }
 
 // predictions returns, in order of precedence, the classes that predict a failure of the case,
